@@ -123,7 +123,7 @@ package remote
 //@ func (b *blob) fetchRange
 //@   props C06
 //@   modifies anything
-//@   assume after "_, err, shared := b.fetchedRegionGroup.Do(key, func() (any, error) {" : err == nil && !shared ==> delivered[ref(allData)]
+//@   assume after "b.fetchedRegionGroup.Do(key" : err == nil && !shared ==> delivered[ref(allData)]
 //@   ensures[C06] result == nil && len(allData) != 0 ==> delivered[ref(allData)]
 
 // ---- C06: bytesWriter places every byte of the stream at its own offset ----
